@@ -44,6 +44,7 @@ LOCK = "std::sync::Mutex::<T>::lock"
 CHANNEL = "std::sync::mpsc::channel"
 CV_WAIT = "std::sync::Condvar::wait"
 CV_WAIT_T = "std::sync::Condvar::wait_timeout"
+CV_WAIT_WHILE = ("std::sync::Condvar::wait_while", "std::sync::Condvar::wait_timeout_while")     # std runs the predicate loop itself
 CV_NOTIFY = ("std::sync::Condvar::notify_one", "std::sync::Condvar::notify_all")
 
 
